@@ -212,6 +212,8 @@ def cli_tasks():
             vs = set(around(ver)) | set(EXTRA[prod])
             for v in sorted(vs):
                 out.append((prod, ver, cat, name, v))
+            for v in around(ver):
+                out.append((prod, ver, cat, name, v, '', 'client'))
             # the same boundary with each patch suffix of the product: the recommendations must make the judgement compare_version() makes
             for sfx in PRODUCTS[prod][1]:
                 if sfx:
@@ -227,7 +229,11 @@ def work_cli(chunk, st):
         srv = P.Server(banner=(fmt % (v, sfx)).encode(), kex=['sntrup761x25519-sha512@openssh.com'] if name != 'sntrup761x25519-sha512@openssh.com' else ['curve25519-sha256'],
                        key=['ssh-ed25519'] if name != 'ssh-ed25519' else ['rsa-sha2-512'], enc=['aes256-ctr'] if name != 'aes256-ctr' else ['aes128-ctr'],
                        mac=['hmac-sha2-256'] if name != 'hmac-sha2-256' else ['hmac-sha2-512'])
-        res = H.audit(srv)
+        role = task[6] if len(task) > 6 else 'server'
+        if role == 'client':      # the same product at the same version dialling in: what it could offer is dated by the same version numbers
+            res = H.client_audit(P.Client(banner=srv.banner, kex=srv.kex, key=srv.key, enc=srv.enc, mac=srv.mac), opts=['-n'])
+        else:
+            res = H.audit(srv)
         rep = report.TextReport(res.stdout)
         added = [(n, c) for s, n, c, _v, _x in rep.rec if s == '+']
         has = (name, cat) in added
@@ -241,7 +247,7 @@ def work_cli(chunk, st):
         if 'software' not in rep.gen:
             st.violation('cli:software-not-recognised:%s' % prod, {'banner': fmt % (v, sfx), 'stdout': res.stdout[:200]})
         elif has != want:
-            st.violation('cli:availability:%s:%s' % (prod, vclass(v, v0) if not sfx else 'patch-suffix-at-boundary'),
+            st.violation('cli:availability:%s%s:%s' % (prod, ':client-audit' if role == 'client' else '', vclass(v, v0) if not sfx else 'patch-suffix-at-boundary'),
                          {'product': prod, 'server_version': v + sfx, 'algorithm': name, 'appeared_in': v0, 'recommended': has, 'compare_version_says_available': want})
     st.sample({'product': chunk[0][0], 'algorithm': chunk[0][3], 'appeared_in': chunk[0][1], 'server_version': chunk[0][4]}, cap=10)
 
